@@ -310,23 +310,35 @@ func runBusStress(rng *rand.Rand, idx int, tier string) Case {
 			bmu.Lock()
 			got = append(got, e.I)
 			bmu.Unlock()
-			if e.I%2 == 0 {
+			if e.I == 0 { // keep the first delivery busy so that the others queue up behind it
+				for k := 0; k < 30; k++ {
+					runtime.Gosched()
+				}
+			} else if e.I%2 == 0 {
 				runtime.Gosched()
 			}
 		}, eb.Async(), eb.Sequential())
 		if r%2 == 0 {
 			runtime.GOMAXPROCS(1)
 		}
+		// every third round: some of the events are published with a cancelled context (not processed at all; the
+		// live ones around them must still come in publish order)
+		var want []int
 		for i := 0; i < 8; i++ {
+			if r%3 == 2 && (i == 3 || i == 6) {
+				guard(func() { eb.PublishContext(bus, dead, stQ{r, i}) })
+				continue
+			}
+			want = append(want, i)
 			guard(func() { eb.Publish(bus, stQ{r, i}) })
 		}
 		bus.Wait()
 		if r%2 == 0 {
 			runtime.GOMAXPROCS(procs)
 		}
-		bad := len(got) != 8
+		bad := len(got) != len(want)
 		for i, n := range got {
-			if n != i {
+			if i >= len(want) || n != want[i] {
 				bad = true
 			}
 		}
